@@ -81,6 +81,7 @@ type World struct {
 	TeardownWait  time.Duration // how long a step waits for the end of a teardown (longer when the scheduler stalls it)
 	connBefore    string
 	dpTimeouts    int
+	AutoHB        bool   // every scripted peer answers the agent's Heartbeat Requests from its creation on
 	ReportCopies  int           // BESS: a report is written this many times back to back on the notify socket (0, 1: once)
 	ConnTruth     string        // "down": the harness itself stopped the datapath server a while ago; Assoc records that instead of the agent's own view
 	DdnMs         int           // notification interval set through the hook (0 = the code's 20 s)
@@ -537,6 +538,10 @@ func (w *World) Peer(name string) *pfcpx.Peer {
 	}
 
 	w.Peers[name] = p
+
+	if w.AutoHB {
+		p.SetAutoHB(true)
+	}
 
 	return p
 }
